@@ -347,7 +347,7 @@ fn gen_random(r: &mut Rng, len: usize) -> Vec<Op> {
     let mut ops = vec![];
     let mut next_id = 3u16;
     for k in 0..len {
-        let port = |r: &mut Rng| if r.chance(1, 12) { *r.pick(&[N, 0x3000, 0x0000, 0xFDFE]) } else { *r.pick(&ports) };
+        let port = |r: &mut Rng| if r.chance(1, 12) { *r.pick(&[N, 0x3000, 0x4000, 0xFDFE]) /* all outside the OS image */ } else { *r.pick(&ports) };
         let dev = |r: &mut Rng| if r.chance(1, 10) { None } else {
             Some(DevSpec { tag: k as u16 + 1, reads: r.chance(4, 5), writes: r.chance(4, 5),
                 intr: match r.below(5) { 0 | 1 => Intr::None, 2 | 3 => Intr::Vect(r.below(256) as u8, r.below(12) as u8), _ => Intr::Ext(r.below(100) as u16) } })
